@@ -858,10 +858,11 @@ class LangServer:
 
     def serve_signature(self, request: dict):
         def get_sub_name(line: str):
-            _, sections = get_paren_level(line)
+            # The argument list without the contents of nested parentheses, whose
+            # commas and "=" do not separate or name arguments of this call
+            arg_string, sections = get_paren_level(line)
             if sections[0].start <= 1:
                 return None, None, None
-            arg_string = line[sections[0].start : sections[-1].end]
             sub_string, sections = get_paren_level(line[: sections[0].start - 1])
             return sub_string.strip(), arg_string.split(","), sections[-1].start
 
